@@ -23,7 +23,7 @@ CHECKS = {
             "DESIGN.md 6 C11", ""),
     "C09": ("histories on the user-visible mutable CPGraph: analysis, recompute, re-weight edges + recompute, deepcopy and continue on the copy, look at the original again; after every computation connectivity, maximal weight (independent topological DP), exact events / edges sets and the makespan bound are checked",
             "DESIGN.md 6 C09", " An analysis that raises or reports failure belongs to C08 (not claimed) and is counted, not evaluated."),
-    "C19": ("save / restore cycles of length 1-4 where each restore runs in the same session, in a new interpreter under the same zygote, or in a new interpreter under another PYTHONHASHSEED (another symbol numbering); absolute / relative / reused out_dir; ENOSPC / EIO / kill inside writes of save, EIO inside reads of restore, kill right after save; every attribute of the restored graph, the recomputed total, breakdown and summary must equal the original's",
+    "C19": ("save / restore cycles of length 1-4 where each restore runs in the same session, in a new interpreter under the same zygote, or in a new interpreter under another PYTHONHASHSEED (another symbol numbering); absolute / relative / reused out_dir; ENOSPC / EIO / kill inside writes of save, EIO inside reads of restore, kill right after save, plus enumeration batches that put one fault at every write call of a save and every read call of a restore of a base plan; every attribute of the restored graph, the recomputed total, breakdown and summary must equal the original's",
             "DESIGN.md 6 C19", ""),
     "C13": ("session histories on the shared per-rank frame: CallGraph builds for one / all ranks, get_frequent_cuda_kernel_sequences, get_gpu_kernels_with_user_annotations, decode_symbol_ids and other getters in seeded order; after every build the eight stack columns are checked against the tree (parents of linked device activities, depth, height, kernel aggregates recomputed over descendants, backward-thread linking) and against the first build of the session (history independence); worlds cross the int8 / int16 widths (more than 127 events, operators with up to 300 kernels)",
             "DESIGN.md 6 C13", " The parent of a host event is taken from the tool (C03's subject)."),
